@@ -137,6 +137,11 @@ theorem persian_wf_tbl (tbl : Array Int) (leap : Int → Bool) (e : Int)
     (hd : Dens leap) (he : -1000000 < e ∧ e < 1000000) :
     WF (Pers.cal tbl leap e) where
   dom_lo := by show (0 : Int) ≤ 1; decide
+  search_lo := by show (0 : Int) ≤ 1 ∧ (1 : Int) ≤ 1; decide
+  recur_lo := fun y h1 h2 => by
+    have a : (1 : Int) ≤ y := h1
+    have b : y < (1 : Int) := h2
+    omega
   dom_hi := by show (9377 : Int) + 1 ≤ 9377 + 1; decide
   year_order := by show (1 : Int) ≤ 9377; decide
   recur := by
@@ -237,7 +242,7 @@ theorem persian_wf_tbl (tbl : Array Int) (leap : Int → Bool) (e : Int)
     show Pers.toMonth n1 + persDim (leap y) n1 ≤ Pers.toMonth n2
     cases leap y <;> omega
   month_key_inj := fun _ _ _ _ _ _ _ _ _ h => h
-  plain_key := fun _ _ _ => rfl
+  plain_key := fun _ _ _ _ _ _ _ => rfl
 
 theorem persian_wf (leap : Int → Bool) (e : Int) (hd : Dens leap) (he : -1000000 < e ∧ e < 1000000) :
     WF (Pers.cal (Pers.startList leap e).toArray leap e) :=
